@@ -1113,6 +1113,8 @@ def inline_walk(prog, ctx, depth=3, _path=()):
                     continue
                 ct = ctx.T.rvalue(rv, bi, si)
                 caps = {n: v for _, n, v in ct[2]}
+                if ctx.assumptions and _closure_dead(ctx, ct):
+                    continue  # `opt.map(|x| ..)` in the world where opt is None: the closure does not run
                 sub = ctx.sub(cb, params=_closure_elem_params(ctx, ct), captures=caps)
                 yield from inline_walk(prog, sub, depth - 1, _path + ((b.key, bi, "closure"),))
         t = blk["term"]
@@ -1130,6 +1132,23 @@ def inline_walk(prog, ctx, depth=3, _path=()):
         params = {i + 1: _ctor_norm(prog, ctx.T.operand(a, bi, idx), 0, ctx.assumptions) for i, a in enumerate(t["args"])}
         sub = ctx.sub(cb, params=params)
         yield from inline_walk(prog, sub, depth - 1, _path + ((b.key, bi, "call"),))
+
+
+_RUNS_ON_SOME = {"map": 1, "and_then": 1, "filter": 1, "is_some_and": 1, "is_ok_and": 1, "inspect": 1, "map_or": 2, "map_or_else": 2, "is_none_or": 1, "take_if": 1}
+_RUNS_ON_NONE = {"or_else": 1, "unwrap_or_else": 1, "ok_or_else": 1, "map_err": 1, "inspect_err": 1, "map_or_else": 1, "get_or_insert_with": 1}
+
+
+def _closure_dead(ctx, cterm):
+    """is the closure an argument of an Option / Result combinator that does not call it in this world?"""
+    for bi, t, args in call_sites(ctx, lambda n: n.startswith(("std::option::Option::", "std::result::Result::"))):
+        m_ = (call_name(t) or "").split("::")[-1]
+        for table, dead_when in ((_RUNS_ON_SOME, False), (_RUNS_ON_NONE, True)):
+            i_ = table.get(m_)
+            if i_ is not None and len(args) > i_ and args[i_][0] == "closure" and args[i_][1] == cterm[1]:
+                a_ = ctx._assumed_ok(args[0])
+                if a_ is dead_when:
+                    return True
+    return False
 
 
 ELEM_CLOSURE_METHODS = {"for_each", "try_for_each", "map", "filter", "any", "all", "find", "position", "filter_map", "flat_map", "inspect", "take_while", "skip_while", "find_map"}
